@@ -84,6 +84,29 @@ class ScopeNameFinder:
             and self.worder.is_a_class_or_function_name_in_header(offset)
         )
 
+    def _is_in_function_header_expression(self, scope, offset):
+        if scope.get_kind() != "Function" or scope.parent is None:
+            return False
+        node = scope.pyobject.get_ast()
+        arguments = getattr(node, "args", None)
+        if arguments is None or not hasattr(node, "body"):
+            return False
+        expressions = list(arguments.defaults)
+        expressions += [default for default in arguments.kw_defaults if default]
+        all_args = arguments.posonlyargs + arguments.args + arguments.kwonlyargs
+        all_args += [arg for arg in (arguments.vararg, arguments.kwarg) if arg]
+        expressions += [arg.annotation for arg in all_args if arg.annotation]
+        if getattr(node, "returns", None) is not None:
+            expressions.append(node.returns)
+        for expression in expressions:
+            start = self.lines.get_line_start(expression.lineno)
+            start += expression.col_offset
+            end = self.lines.get_line_start(expression.end_lineno)
+            end += expression.end_col_offset
+            if start <= offset < end:
+                return True
+        return False
+
     def get_pyname_at(self, offset):
         return self.get_primary_and_pyname_at(offset)[1]
 
@@ -117,6 +140,10 @@ class ScopeNameFinder:
         if self._is_function_name_in_function_header(holding_scope, offset, lineno):
             name = self.worder.get_primary_at(offset).strip()
             return (None, holding_scope.parent[name])
+        # default values and annotations are evaluated outside the function
+        if self._is_in_function_header_expression(holding_scope, offset):
+            name = self.worder.get_primary_at(offset)
+            return eval_str2(holding_scope.parent, name)
         # module in a from statement or an imported name that is aliased
         if self.worder.is_from_statement_module(
             offset
